@@ -357,6 +357,15 @@ def impl(case):
                         _print(diff, not case.get("jl", False), not case.get("jd", False), ansi=False)]
     except Exception as e:  # noqa
         obs["plain_error"] = type(e).__name__ + ": " + str(e)[:200]
+    # C05 ("any setting of ... colour output yields the same ... script"): the coloured text without its decorations (ANSI
+    # escapes, the combining strike / plus marks) is the plain text without its ~~ / ++ markers
+    if "plain" in obs:
+        import re
+        ctext = re.sub(r"\x1b\[[0-9;]*m", "", raw).replace("\u0336", "").replace("\u031f", "")
+        ptext = obs["plain"][0].replace("~~", "").replace("++", "")
+        obs["colour_text_same"] = ctext == ptext
+        if ctext != ptext:
+            obs["colour_text"] = [ctext[:600], ptext[:600]]
     # a fresh diff of fresh trees prints the same (printing has no hidden state)
     d2 = gj.build_tree(case["f"], o).diff(gj.build_tree(case["t"], o))
     obs["repeat_same"] = _print(d2, case.get("jl", False), case.get("jd", False)) == raw
@@ -637,6 +646,12 @@ def parse_plain(text):
     return first, second, marks[0]
 
 
+def _has_marks_chars(case):
+    """documents containing the combining marks or ESC themselves: stripping decorations would strip data"""
+    t = json.dumps([case["f"], case["t"]], ensure_ascii=False)
+    return any(c in t for c in ("\u0336", "\u031f", "\x1b")) or "\\u001b" in t or "\\u0336" in t or "\\u031f" in t
+
+
 def monitor_plain(case, obs):
     P = "C06"
     if not (plain_domain(case["f"]) and plain_domain(case["t"])):
@@ -703,6 +718,8 @@ def monitor(case, obs):
         hits.append({"prop": P, "key": "layout-changes-content", "what": "join_lists/join_dict_items change more than whitespace"})
     if obs.get("repeat_same") is False:
         hits.append({"prop": P, "key": "render-not-repeatable", "what": "rendering a fresh diff of the same documents gives a different text"})
+    if obs.get("colour_text_same") is False and plain_domain(case["f"]) and plain_domain(case["t"]) and not _has_marks_chars(case):
+        hits.append({"prop": "C05", "key": "colour-changes-printed-script", "what": "the printed diff differs between colour on and off beyond the decorations: colour " + repr(obs["colour_text"][0][:200]) + " plain " + repr(obs["colour_text"][1][:200])})
     return hits + monitor_plain(case, obs)
 
 
